@@ -95,11 +95,13 @@ def enable_parse_cache():
     _orig_parse = ip.Module.parseString
 
     def cached(s):
-        if s not in _parse_cache:
+        # MatlabWrapper.wrap appends a newline to every file it reads: trailing newlines are not part of the key
+        key = s.rstrip('\n')
+        if key not in _parse_cache:
             if len(_parse_cache) > 64:
                 _parse_cache.clear()
-            _parse_cache[s] = _orig_parse(s)
-        return copy.deepcopy(_parse_cache[s])
+            _parse_cache[key] = _orig_parse(s)
+        return copy.deepcopy(_parse_cache[key])
     ip.Module.parseString = staticmethod(cached)
 
 
